@@ -18,6 +18,7 @@ reported only because the real port enqueues the token a second time.
 """
 from __future__ import annotations
 
+import asyncio
 import json
 import os
 
@@ -36,13 +37,14 @@ ACTION_PROPS = ["BlockedGetNeedsPut", "CloseIsNeutral"]
 CONFIGS = {
     # exhaustive model checking
     "plain_q":   dict(scn="plain1", cons=3, tags="a", puts=4, term=2, rules=0, closes=1),
-    "plain_t":   dict(scn="plain1", cons=4, tags="ab", puts=5, term=2, rules=0, closes=1),
+    "plain_t":   dict(scn="plain1", cons=4, tags="a", puts=4, term=2, rules=0, closes=1),
+    "plain5_t":  dict(scn="plain1", cons=2, tags="ab", puts=5, term=2, rules=0, closes=1),
     "filter_q":  dict(scn="filter1", cons=2, tags="ab", admit="a", puts=4, term=1, rules=0, closes=1),
-    "filter_t":  dict(scn="filter1", cons=2, tags="abc", admit="ac", puts=5, term=2, rules=0, closes=1),
+    "filter_t":  dict(scn="filter1", cons=2, tags="abc", admit="ac", puts=4, term=1, rules=0, closes=1),
     "interp_q":  dict(scn="inter_plain", cons=1, tags="ab", puts=3, term=1, rules=1, closes=0, rts="small"),
     "interp2_q": dict(scn="inter_plain", cons=1, tags="ab", puts=2, term=0, rules=2, closes=0, rts="small", getsel="first"),
-    "interp_t":  dict(scn="inter_plain", cons=1, tags="ab", puts=3, term=1, rules=2, closes=0, rts="small"),
-    "interp3_t": dict(scn="inter_plain", cons=2, tags="abc", puts=4, term=1, rules=1, closes=0, rts="mid", getsel="first"),
+    "interp_t":  dict(scn="inter_plain", cons=1, tags="ab", puts=3, term=0, rules=2, closes=0, rts="small", getsel="first"),
+    "interp3_t": dict(scn="inter_plain", cons=1, tags="abc", puts=3, term=1, rules=1, closes=0, rts="mid", getsel="first"),
     "interi_t":  dict(scn="inter_inter", cons=1, tags="ab", puts=3, term=0, rules=2, closes=0, rts="small", getsel="second"),
     "interf_t":  dict(scn="inter_filter", cons=1, tags="ab", admit="b", puts=3, term=0, rules=2, closes=0, rts="small", getsel="second"),
     # liveness (no symmetry)
@@ -51,10 +53,11 @@ CONFIGS = {
     # generation, exhaustive (complete concrete state graph, every transition replayed)
     "g_plain":   dict(scn="plain1", cons=2, tags="a", puts=4, term=2, rules=0, closes=1),
     "g_filter":  dict(scn="filter1", cons=1, tags="ab", admit="a", puts=4, term=1, rules=0, closes=1),
-    "g_interp":  dict(scn="inter_plain", cons=1, tags="ab", puts=2, term=1, rules=2, closes=0, rts="small"),
-    "g_plain_t": dict(scn="plain1", cons=3, tags="a", puts=4, term=2, rules=0, closes=1),
-    "g_interp_t": dict(scn="inter_plain", cons=1, tags="ab", puts=3, term=1, rules=2, closes=0, rts="small"),
-    "g_interi_t": dict(scn="inter_inter", cons=1, tags="ab", puts=2, term=0, rules=2, closes=0, rts="small", getsel="second"),
+    "g_interp":  dict(scn="inter_plain", cons=1, tags="ab", puts=2, term=0, rules=2, closes=0, rts="small"),
+    "g_plain_t": dict(scn="plain1", cons=3, tags="a", puts=4, term=1, rules=0, closes=1),
+    "g_interp_t": dict(scn="inter_plain", cons=1, tags="ab", puts=3, term=1, rules=2, closes=0, rts="small", getsel="second"),
+    "g_interi_t": dict(scn="inter_inter", cons=1, tags="ab", puts=3, term=0, rules=2, closes=0, rts="small", getsel="second"),
+    "g_interp2_t": dict(scn="inter_plain", cons=1, tags="ab", puts=3, term=0, rules=2, closes=0, rts="small", getsel="first"),
     "g_interf_t": dict(scn="inter_filter", cons=1, tags="ab", admit="b", puts=3, term=0, rules=2, closes=0, rts="small", getsel="second"),
     # generation by simulation (the enumeration of the design: <=5 puts, 3 tags, 4 consumers, <=2 rules)
     "s_plain":   dict(scn="plain1", cons=4, tags="abc", puts=5, term=2, rules=0, closes=2),
@@ -235,6 +238,20 @@ async def _replay_nodes(ctx, sfctx, k, nodes, label, stats):
                               "after %s: %s on %s (%s)" % (_akey(act), clause, p, json.dumps(info)))
                 ok = False
                 break
+            # I4 on the real objects: with no woken get, letting the event loop run completes no blocked get
+            pdm = node["exp"]["pd"]
+            states = [pdm[p][c] for p in pdm for c in pdm[p]]
+            if "blocked" in states and "woken" not in states:
+                for _ in range(2):
+                    await asyncio.sleep(0)
+                again = world.project()
+                if again["pd"] != got["pd"] or again["dl"] != got["dl"]:
+                    ctx.violation("port:%s:get:completed-without-put" % cls,
+                                  dict(detail, got_state=again, expected_state=exp),
+                                  "a get that found its queue empty completed (or failed) without any put on the port")
+                    ok = False
+                    break
+                stats["blocked_stays_blocked"] += 1
             if not node["done"]:
                 node["done"] = True
                 stats["transitions"] += 1
@@ -293,7 +310,7 @@ def _build_trie(lines):
 
 def _new_stats():
     s = {"actions": 0, "transitions": 0, "close_raised": 0, "get_blocks": 0, "late_subscriber_replayed": 0, "wake": 0,
-         "rule_satisfied_states": 0, "with_recovered_termination": 0, "filter_rejects": 0}
+         "rule_satisfied_states": 0, "with_recovered_termination": 0, "filter_rejects": 0, "blocked_stays_blocked": 0}
     return s
 
 
@@ -376,8 +393,8 @@ def run(ctx):
     acts_inter = ["Put", "Get", "Wake", "AddInterPort"]
     mc = ctx.pick([("plain_q", acts_plain), ("filter_q", acts_plain), ("interp_q", acts_inter + ["PutTermination"]),
                    ("interp2_q", acts_inter)],
-                  [("plain_t", acts_plain), ("filter_t", acts_plain), ("interp_q", acts_inter + ["PutTermination"]),
-                   ("interp_t", acts_inter + ["PutTermination"]), ("interp3_t", acts_inter + ["PutTermination"]),
+                  [("plain_t", acts_plain), ("plain5_t", acts_plain), ("filter_t", acts_plain), ("interp_q", acts_inter + ["PutTermination"]),
+                   ("interp_t", acts_inter), ("interp3_t", acts_inter + ["PutTermination"]),
                    ("interi_t", acts_inter), ("interf_t", acts_inter)])
     for name, cov in mc:
         _model_check(ctx, name, cov)
@@ -394,7 +411,7 @@ def run(ctx):
     try:
         # exhaustive generation: every transition of the complete concrete graph
         for name in ctx.pick(["g_plain", "g_filter", "g_interp"],
-                             ["g_plain_t", "g_filter", "g_interp_t", "g_interi_t", "g_interf_t"]):
+                             ["g_plain_t", "g_filter", "g_interp", "g_interp_t", "g_interp2_t", "g_interi_t", "g_interf_t"]):
             g = ctx.tlc("Port", "Gen_Port", "Gen_Port_%s.cfg" % name, files={"Gen_Port_%s.cfg" % name: cfg_text(CONFIGS[name], "gen")},
                         workers=1, count=False, timeout=3000)
             ctx.require(g.ok, "generation run %s failed: %s\n%s" % (name, g.error, g.stdout[-1500:]))
@@ -409,9 +426,9 @@ def run(ctx):
             del lines, trie
         ctx.exhaustive = True
         # simulation of the large configurations
-        for name, num, depth in ctx.pick([("s_plain", 12, 16), ("s_interp", 25, 14)],
-                                         [("s_plain", 150, 20), ("s_filter", 100, 18), ("s_interp", 300, 18),
-                                          ("s_interi", 250, 18), ("s_interf", 200, 18)]):
+        for name, num, depth in ctx.pick([("s_plain", 150, 18), ("s_interp", 250, 16)],
+                                         [("s_plain", 1500, 22), ("s_filter", 800, 20), ("s_interp", 2500, 20),
+                                          ("s_interi", 2000, 20), ("s_interf", 1500, 20)]):
             g = ctx.tlc("Port", "Gen_Port", "Gen_Port_%s.cfg" % name, files={"Gen_Port_%s.cfg" % name: cfg_text(CONFIGS[name], "gen")},
                         workers=1, count=False, simulate={"num": num, "depth": depth}, timeout=3000)
             lines = g.printed_json()
